@@ -34,7 +34,7 @@ APOSTROPHE_LOOK_ALIKE_CHARS = [
 
 RE_NBSP = re.compile("\xa0", flags=re.UNICODE)
 RE_SPACES = re.compile(r"\s+")
-RE_TRIM_SPACES = re.compile(r"^\s+(\S.*?)\s+$")
+RE_TRIM_SPACES = re.compile(r"^\s*(\S.*?)\s*$")
 RE_TRIM_COLONS = re.compile(r"(\S.*?):*$")
 
 RE_SANITIZE_SKIP = re.compile(
